@@ -140,6 +140,13 @@ func (w *World) ruleInternalErrorsPropagate(r *Report, rule string, min int) {
 				o.Trivial = true
 				continue
 			}
+			if w.neverFailsHere(cs.call) {
+				// `key, _ := EnsureInterface(rawKey, nil)`: the callee only hands its error
+				// argument back, and this site passes nil (rules_decerr_site.go)
+				o := r.add(rule, fmt.Sprintf("%s · %s", fnName(fn), cs.key()), w.instrPos(cs.call), true, "every return of the callee carries nil or the error it was handed, and this call hands it nil: nothing to consume")
+				o.Trivial = true
+				continue
+			}
 			if lookup {
 				ok, fact := w.errTested(cs.call)
 				r.add(rule, fmt.Sprintf("%s · %s", fnName(fn), cs.key()), w.instrPos(cs.call), ok, "field lookup: a miss is the unknown-field case (handled under C05); "+fact)
